@@ -285,11 +285,17 @@ func checkAddress(c *Case, root *Node, presented types.SpendPolicy, memo addrMem
 	rec := stats.G()
 	ref := refAddress(root, memo)
 	orig := build(root, false, nil)
+	origText, presentedText := orig.String(), presented.String()
 	if a := orig.Address(); a != ref {
 		return stats.Failf("C14/address", "Address(%s) = %v, reference %v", short(root), a, ref)
 	}
 	if a := presented.Address(); a != ref {
 		return stats.Failf("C14/address", "Address of partly opaque form %v != reference %v of %s", a, ref, short(root))
+	}
+	// asking a policy for its address is reading it: the policy (which sits in somebody's transaction) reads the same
+	// afterwards, at every level
+	if orig.String() != origText || presented.String() != presentedText {
+		return stats.Failf("C14/address-modifies-policy", "Address() changed the policy it was asked about: %s became %s", origText, orig.String())
 	}
 	if len(c.Alt) > 0 {
 		cl := cloneNode(root)
